@@ -135,7 +135,7 @@ impl Property for Dispatch {
     fn budget(&self, tier: Tier) -> Budget {
         Budget {
             cases: tier.pick(250_000, 15_000_000),
-            tape_len: 1000,
+            tape_len: 2500,
         }
     }
     fn decode(&self, t: &mut Tape<'_>) -> DispatchCase {
